@@ -134,6 +134,9 @@ def render_bgw(ctx, ms):
 
 
 def render_ctx(ctx, sub, root):
+    if ctx.startswith("lay+"):
+        _, wrapper, layout, base = ctx.split("+")
+        return lay_wrap(lay_join(ctx_elements(base, sub, root), layout), wrapper)
     ms = [render_mut(t, root) for t in sub]
     if ctx.startswith("bgw-"):
         return render_bgw(ctx, ms)
@@ -166,8 +169,85 @@ def render_ctx(ctx, sub, root):
     return s + "; echo $? >$STF\n"
 
 
+# ------------------------------------------------------------------------------------------------
+# layouts: the same context written with other separators, inside every kind of compound command
+
+LAY_BASES = ["bg", "bgw-spec-plain", "bgw-spec2-plain", "bgw-all-plain", "paren", "cmdsub", "pipe", "procsub", "stages"]
+LAY_WRAPPERS = ["top", "brace", "func", "ifthen", "forbody", "whilebody", "caseitem", "eval"]
+LAYOUTS = ["semi", "nl", "blank", "mixed", "ampnl"]
+
+
+def base_ctx(c):
+    return c.split("+")[-1] if c.startswith("lay+") else c
+
+
+def ctx_elements(base, sub, root):
+    """The context as list elements (text, runs-in-background); a harmless command goes first so that
+    the background job is not the first element of its list."""
+    ms = [render_mut(t, root) for t in sub]
+    body = "; ".join(ms + ['D "$@"'])
+    job = ("{ %s; } >$SUBF" % body, True)
+    el = {
+        "paren": [("( %s ) >$SUBF" % body, False)],
+        "cmdsub": [("cv=$( %s )" % body, False)],
+        "pipe": [("{ %s; } | cat >$SUBF" % body, False)],
+        "procsub": [("cat <( %s ) >$SUBF" % body, False)],
+        "stages": [(" | ".join(ms + ["true"]), False)],
+        "bg": [job, ("wait", False)],
+        "bgw-all-plain": [job, ("wait", False)],
+        "bgw-spec-plain": [job, ("wait %1", False)],
+        "bgw-spec2-plain": [job, ("{ exit 5; }", True), ("wait %1 %2", False)],
+    }[base]
+    return [(":", False)] + el + [("echo $? >$STF", False)]
+
+
+def lay_join(elems, layout):
+    out = []
+    for i, (t, bg) in enumerate(elems):
+        last = i == len(elems) - 1
+        if layout == "semi":
+            sep = " & " if bg else ("" if last else "; ")
+        elif layout == "nl":
+            sep = " &\n" if bg else "\n"
+        elif layout == "blank":
+            sep = " &\n\n# after the job\n" if bg else "\n\n  # a comment between two commands\n"
+        elif layout == "mixed":
+            sep = " & " if bg else ("\n" if i % 2 == 0 else ("" if last else "; "))
+        elif layout == "ampnl":
+            sep = " &\n" if bg else ("" if last else "; ")
+        else:
+            raise ValueError(layout)
+        out.append(t + sep)
+    return "".join(out).rstrip(" ")
+
+
+def lay_wrap(text, wrapper):
+    text = text.rstrip("\n")
+    if wrapper == "top":
+        return text + "\n"
+    if wrapper == "brace":
+        return "{\n%s\n}\n" % text
+    if wrapper == "func":
+        return 'WL() {\n%s\n}\nWL "$@"\nunset -f WL\n' % text
+    if wrapper == "ifthen":
+        return "if true; then\n%s\nfi\n" % text
+    if wrapper == "forbody":
+        return "for _l in 1; do\n%s\ndone\n" % text
+    if wrapper == "whilebody":
+        return "while :; do\n%s\nbreak\ndone\n" % text
+    if wrapper == "caseitem":
+        return "case x in\nx)\n%s\n;;\nesac\n" % text
+    if wrapper == "eval":
+        return "eval " + lib_sq(text) + "\n"
+    raise ValueError(wrapper)
+
+
+def lib_sq(s):
+    return "'" + s.replace("'", "'\\''") + "'"
+
+
 def render_setup(par, root):
-    return "cv=\n" + DUMP_FN + "".join(render_mut(t, root) + "\n" for t in par)
+    return "cv=\n_l=1\n" + DUMP_FN + "".join(render_mut(t, root) + "\n" for t in par)
 
 
 POST = 'D "$@" >$PARF\n'
@@ -448,6 +528,8 @@ CF_BODIES = [["xi:7"], ["xi:0"], ["br"], ["co"], ["rt:4"], ["rt:0"], ["fa"], ["t
              ["cd:..", "rt:4"], ["fn:f1:B", "co"], ["al:a1:colon", "sa:z", "xi:3"], ["fa", "rt:2", "ec:hello"],
              ["xc:echo"], ["xc:true", "as:v1:q"], ["so:errexit:1", "xc:false", "as:v1:q"], ["xc:arg0", "xc:cmd", "br"]]
 CF_MUTS = ["br", "co", "rt:4", "rt:0", "so:errexit:1", "xi:7"]
+LAY_BODIES = [["as:v1:q", "cd:..", "fn:f1:B", "al:a1:colon", "tr:INT:reset", "tr:USR1:true", "sa:z", "so:noglob:0", "sh:dotglob:1", "fd:9:o"],
+              ["ec:hello", "as:v2:n", "xi:3"], ["un:v1", "uf:f1", "ua:a1", "sf", "fd:7:c", "xc:echo"]]
 
 
 def is_world(tok):
@@ -558,6 +640,16 @@ def gen_cases(ctx):
                     t = l.split(" ")
                     k = t.index("--")
                     cases.append(("corpus", t[0], t[1:k], t[k + 1:]))
+    # layouts: separators (`;`, newline, `&` then newline, blank lines, comments) x compound kinds x contexts
+    k = 0
+    for base in LAY_BASES:
+        for wrapper in LAY_WRAPPERS:
+            for layout in LAYOUTS:
+                for bi, body in enumerate(LAY_BODIES):
+                    k += 1
+                    if ctx.quick and k % 3 != ctx.seed % 3 and not (layout == "nl" and bi == 0):
+                        continue
+                    cases.append(("lay", "lay+%s+%s+%s" % (wrapper, layout, base), PRESETS[(k // 7) % 2], body))
     # exhaustive-small: every context x every single mutator x every parent preset
     for c in CTXS:
         for pre in PRESETS:
@@ -663,7 +755,7 @@ def run_inproc(ctx, root):
         ctx.bucket("ctx_" + c)
         ctx.impl_validated += 1
         case = {"mode": "inproc", "ctx": c, "parent": par, "sub": sub}
-        bc, changes = canon_brush(b, c)
+        bc, changes = canon_brush(b, base_ctx(c))
         mc = canon_model(m, root)
         if mc is None:
             ctx.broken.append("driver rejected a generated case: %s -> %s" % (drv_request(root, c, par, sub)[:200], m))
@@ -890,6 +982,86 @@ def canon_dump(text, tdir):
     return res + sorted(cur)
 
 
+# --- layouts and the context sweep (scripts built as text; @T@ stands for the scratch directory) ---------------
+
+E2E_ELEMS = {     # a context as list elements: (template, runs in background)
+    "bg": [("{ %s; }", True), ("wait", False)],
+    "bg_spec": [("{ %s; }", True), ("wait %%1", False)],
+    "bg2": [("{ %s; }", True), ("{ %s; }", True), ("wait", False)],
+    "paren": [("( %s )", False)],
+    "cmdsub": [(': "$( %s )"', False)],
+    "pipe": [("{ %s; } | cat", False)],
+    "procsub": [("cat <( %s )", False)],
+}
+E2E_LAY_WRAPPERS = {
+    "top": "%s",
+    "brace": "{\n%s\n}",
+    "func": 'WL() {\n%s\n}\nWL "$@"\nunset -f WL',
+    "ifthen": "if true; then\n%s\nfi",
+    "elsebody": "if false; then :\nelse\n%s\nfi",
+    "forbody": "for e2ei in 2; do\n%s\ndone",
+    "whilebody": "while :; do\n%s\nbreak\ndone",
+    "untilbody": "until false; do\n%s\nbreak\ndone",
+    "caseitem": "case x in\nx)\n%s\n;;\nesac",
+    "eval": None,
+    "sub": "(\n%s\n)",
+    "cmdsub": ': "$(\n%s\n)"',
+}
+DUMP_BEFORE = 'DUMP "$@" >@T@/before 2>&1'
+DUMP_AFTER = 'DUMP "$@" >@T@/after 2>&1'
+
+
+def e2e_lay_script(wrapper, layout, base, muts):
+    body = "; ".join(muts)
+    elems = [(":", False)] + [((t % body if "%s" in t else t.replace("%%", "%")) + " >/dev/null 2>&1", bg)
+                              for t, bg in E2E_ELEMS[base]] + [(DUMP_AFTER, False)]
+    text = lay_join(elems, layout).rstrip("\n")
+    if wrapper == "func":       # the wrapper function itself is part of the parent before and after
+        return E2E_SETUP + "WL() {\n%s\n}\n" % text + DUMP_BEFORE + '\nWL "$@"\n'
+    w = E2E_LAY_WRAPPERS[wrapper]
+    wrapped = ("eval " + lib_sq(text)) if wrapper == "eval" else (w % text)
+    return E2E_SETUP + DUMP_BEFORE + "\n" + wrapped + "\n"
+
+
+SW_WRAPPERS = {      # execution contexts for the parent itself: both dumps and the construct run inside
+    "func": 'SW1() {\n%s\n}\nSW1 "$@"\nunset -f SW1',
+    "func_local": 'SW1() {\nlocal gs=shadow ge gnew=loc\n%s\n}\nSW1 "$@"\nunset -f SW1',
+    "func2": 'SW1() {\n%s\n}\nSW2() { SW1 "$@"; }\nSW2 "$@"\nunset -f SW1 SW2',
+    "sub": "(\n%s\n)",
+    "cmdsub": ': "$(\n%s\n)"',
+    "eval": None,
+    "brace_redir": "{\n%s\n} 3>/dev/null",
+    "lastpipe_last": "shopt -s lastpipe\ntrue | {\n%s\n}",
+    "while": "e2ew=1; while [ $e2ew = 1 ]; do e2ew=0\n%s\ndone",
+    "for": "for e2ei in 2; do\n%s\ndone",
+    "trap_exit": None,
+    "source": None,
+    "twice": None,
+}
+SW_OPTS = ["set -E", "set -T", "set +h", "set -C", "set +u", "set +f", "shopt -s extglob", "shopt -s dotglob",
+           "shopt -s nocasematch", "shopt -s globstar", "shopt -s expand_aliases", "shopt -s lastpipe",
+           "shopt -s inherit_errexit", "set -o pipefail", "set -e", "set -e; shopt -s inherit_errexit",
+           "set -eo pipefail; shopt -s lastpipe", "set -m", "set -m; shopt -s lastpipe"]
+SW_STATUS0 = ("cmdsub", "backq", "procsub", "bg", "pipe")     # contexts whose own status is 0 whatever the body does
+NEST_OUTER = ["( :; %s )", ': "$( %s )"', "{ %s; } | cat", "{ %s; } & wait", "cat <( %s )", "coproc { :; %s; }; wait"]
+NEST_INNER = ["( %s )", ': "$( %s )"', "{ %s; } | cat", "%s | cat", "{ %s; } & wait", "cat <( %s )"]
+
+
+def e2e_sweep_script(wrapper, opt, cmd, second=None):
+    """setup; [option]; wrapper( dump-before; construct; [construct again]; dump-after )"""
+    inner = DUMP_BEFORE + "\n" + cmd + " >/dev/null 2>&1\n" + ((second + " >/dev/null 2>&1\n") if second else "") + DUMP_AFTER
+    pre = E2E_SETUP + ((opt + "\n") if opt else "")
+    if wrapper is None or wrapper == "twice":
+        return pre + inner + "\n"
+    if wrapper == "eval":
+        return pre + "eval " + lib_sq(inner) + "\n"
+    if wrapper == "trap_exit":
+        return pre + "SWBODY=" + lib_sq(inner) + "\ntrap 'eval \"$SWBODY\"' EXIT\nexit 0\n"
+    if wrapper == "source":
+        return pre + "cat >@T@/src.sh <<'SWEOF'\n" + inner + "\nSWEOF\n. @T@/src.sh\n"
+    return pre + (SW_WRAPPERS[wrapper] % inner) + "\n"
+
+
 E2E_TIMEOUT = [30]
 
 
@@ -901,8 +1073,10 @@ def e2e_one(job):
     root, which, ctxname, muts, mode = job
     tdir = tempfile.mkdtemp(prefix="c12e-")
     try:
-        if mode == "plain":
-            r = e2e_run(which, root, e2e_script(tdir, ctxname, muts), tdir)
+        if mode in ("plain", "raw"):
+            # raw: muts = (script text with @T@ for the scratch directory, the mutators it contains)
+            script = muts[0].replace("@T@", tdir) if mode == "raw" else e2e_script(tdir, ctxname, muts)
+            r = e2e_run(which, root, script, tdir)
             if r["timeout"]:
                 return ("timeout", None, None)
             if not os.path.exists(os.path.join(tdir, "before")):
@@ -951,13 +1125,17 @@ def dump_delta(b, a):
     return sorted(("-" + l) for l in sb - sa)[:6] + sorted(("+" + l) for l in sa - sb)[:6]
 
 
-def e2e_classify(delta, muts, ctxname=None):
+def e2e_classify(delta, muts, ctxname=None, script=None):
     """clauses explaining a before/after difference, or None"""
     clauses = set()
     text = " ; ".join(muts)
+    # `( (( … )) )` written out in the script: a subshell whose body starts with an arithmetic command
+    pp = (ctxname or "").split("/")[-1] in ("paren", "cmdsub_paren") and muts and muts[0].startswith("((")
+    if script is not None:
+        pp = bool(re.search(r"\(\s+\(\( av = 7 \)\)", script))
     for l in delta:
         body = l[1:]
-        if ctxname in ("paren", "cmdsub_paren") and muts and muts[0].startswith("((") and re.match(r"declare -\S+ av=", body):
+        if pp and re.match(r"declare -\S+ av=", body):
             # `( (( … )) )`: the two opening parentheses are taken for `((` and the body runs in the parent
             clauses.add("paren_paren_parsed_as_arith")
         elif re.fullmatch(r"0[0-7]{3}", body) and "umask" in text:
@@ -1032,6 +1210,48 @@ def end_to_end(ctx, root):
         n = rng.randint(2, 4)
         st = [rng.choice(E2E_MUTS) for _ in range(n - 1)] + [rng.choice(lp_last)]
         jobs.append((root, "brush", "lastpipe", st, "lp"))
+    # layouts: separators and compound kinds (the background job never first in its list)
+    rich = ["gs=changed", "cd /", "F() { echo other; }", "set +o noglob", "alias na=new", "trap - INT", "set -- a b", "exec 9>/dev/null"]
+    k = 0
+    for base in E2E_ELEMS:
+        for wrapper in E2E_LAY_WRAPPERS:
+            for layout in LAYOUTS:
+                k += 1
+                if ctx.quick and k % 4 != ctx.seed % 4 and not (layout == "nl" and base == "bg"):
+                    continue
+                body = rich if k % 2 else [rng.choice(E2E_MUTS) for _ in range(3)]
+                jobs.append((root, "brush", "lay/%s/%s/%s" % (wrapper, layout, base),
+                             (e2e_lay_script(wrapper, layout, base, body), body), "raw"))
+    # context sweep: a sample of the plain cases re-run with the parent itself inside another execution context,
+    # under options that must not matter, nested two deep, and a second time in the same shell
+    plain = [j for j in jobs if j[4] == "plain" and not j[2].startswith(("X/", "stage")) and j[2] in E2E_CTXS
+             and j[2] not in E2E_NOBASH]
+    sample = [plain[i] for i in sorted(rng.sample(range(len(plain)), min(len(plain), ctx.size(10, 120))))]
+    for (_, _, c, ms, _) in sample:
+        cmd = E2E_CTXS[c] % "; ".join(ms)
+        for w in SW_WRAPPERS:
+            if w == "twice" and (c.startswith(("bg_", "coproc")) or "%" in cmd):
+                continue
+            if ctx.quick and rng.random() < 0.3:
+                continue
+            jobs.append((root, "brush", "sw/%s/%s" % (w, c),
+                         (e2e_sweep_script(w, None, cmd, second=cmd if w == "twice" else None), ms), "raw"))
+    for opt in SW_OPTS:
+        pool = [j for j in plain if "set -e" not in opt or
+                (j[2] in SW_STATUS0 and not (j[2] == "pipe" and "pipefail" in opt))]
+        for (_, _, c, ms, _) in [pool[i] for i in sorted(rng.sample(range(len(pool)), min(len(pool), ctx.size(4, 40))))]:
+            if "set -e" in opt and any(m.startswith(("exec 2>", "exec >", "exec <")) for m in ms):
+                pass
+            jobs.append((root, "brush", "opt/%s/%s" % (opt.replace(" ", "_").replace(";", ""), c),
+                         (e2e_sweep_script(None, opt, E2E_CTXS[c] % "; ".join(ms)), ms), "raw"))
+    for oi, o in enumerate(NEST_OUTER):
+        for ii, i_ in enumerate(NEST_INNER):
+            for rep in range(ctx.size(2, 8)):
+                ms = rich if rep == 0 else [rng.choice(E2E_MUTS) for _ in range(rng.randint(1, 3))]
+                if "%s | cat" == i_:
+                    ms = ms[:1]
+                jobs.append((root, "brush", "nest/%d/%d" % (oi, ii),
+                             (e2e_sweep_script(None, None, o % (i_ % "; ".join(ms))), ms), "raw"))
     # the oracle of the method: bash must show no difference on the same scripts (sample)
     njobs = len(jobs)
     ojobs = [(r, "bash", c, m, md) for (r, _, c, m, md) in jobs[::ctx.size(4, 6)] if c not in E2E_NOBASH]
@@ -1048,13 +1268,18 @@ def end_to_end(ctx, root):
     nviol = 0
     for job, (st, b, a) in zip(jobs + ojobs, res):
         _, which, c, muts, mode = job
-        flat = list(muts[0]) if mode == "conc" else (list(muts[:-1]) if mode == "lp" else list(muts))
+        flat = list(muts[0]) if mode == "conc" else (list(muts[:-1]) if mode == "lp" else list(muts[1]) if mode == "raw" else list(muts))
         case = {"mode": "e2e-" + mode, "ctx": c,
-                "muts": {"sub": muts[0], "parent": muts[1]} if mode == "conc" else list(muts)}
+                "muts": {"sub": muts[0], "parent": muts[1]} if mode == "conc" else
+                        {"script": muts[0], "muts": list(muts[1])} if mode == "raw" else list(muts)}
         if which == "bash":
+            if st == "ok":
+                # bash keeps the descriptor of a process substitution open until the enclosing eval / sourced file ends
+                a = [l for l in a if not (re.fullmatch(r"6[0-3] -> pipe:\[n\]", l) and l not in b)]
             if st != "ok" or b != a:
                 ctx.oracle_mismatch += 1
-                ctx.notes.append("bash shows a before/after difference (dump method): %s %s" % (case, dump_delta(b or [], a or [])[:4]))
+                ctx.notes.append("bash shows a before/after difference (dump method): %s %s %s" %
+                                 (dump_delta(b or [], a or [])[:4], c, str(case.get("muts"))[-300:]))
             continue
         ctx.count(("e2e", c, repr(muts), mode), bucket="e2e_" + mode)
         ctx.bucket("e2e_ctx_" + c)
@@ -1070,13 +1295,13 @@ def end_to_end(ctx, root):
                 nviol += 1
                 ctx.violation("the parent shell did not reach the end of the script after a subshell (%s)" % st, case)
             continue
-        if c == "coproc" or c.endswith("/coproc"):
+        if c == "coproc" or c.endswith("/coproc") or (mode == "raw" and "coproc" in muts[0].replace(E2E_SETUP, "")):
             # the parent's own ends of the coprocess pipes (brush keeps them after the coprocess has ended)
             a = [l for l in a if not (re.fullmatch(r"\d+ -> pipe:\[n\]", l) and l not in b)]
         if b != a:
             delta = dump_delta(b, a)
-            cl = e2e_classify(delta, flat, c)
-            what = ("parent state differs after a subshell" if mode == "plain" else
+            cl = e2e_classify(delta, flat, c, script=muts[0].replace(E2E_SETUP, "") if mode == "raw" else None)
+            what = ("parent state differs after a subshell" if mode in ("plain", "raw") else
                     "under lastpipe the parent after `s1 | … | sk` differs from the parent after `sk` alone "
                     "(a non-final stage leaked, or the last command's effects were lost)" if mode == "lp" else
                     "parent state after concurrent background activity differs from the parent's own activity alone")
@@ -1114,14 +1339,17 @@ def replay(ctx, rp):
             differs = bc is None or mc is None or any(bc[k] != mc[k] for k in ("st", "sub", "par", "cv", "w0", "w1", "diff"))
             print("brush == model:", not differs)
             return 1 if (changes or differs) else 0
-        mode = {"e2e-plain": "plain", "e2e-lp": "lp"}.get(case.get("mode"), "conc")
-        muts = case["muts"] if mode in ("plain", "lp") else (case["muts"]["sub"], case["muts"]["parent"])
+        mode = {"e2e-plain": "plain", "e2e-lp": "lp", "e2e-raw": "raw"}.get(case.get("mode"), "conc")
+        muts = case["muts"] if mode in ("plain", "lp") else (case["muts"]["script"], case["muts"]["muts"]) if mode == "raw" \
+            else (case["muts"]["sub"], case["muts"]["parent"])
         rc = 0
         for which in ("brush", "bash"):
             tdir = "/tmp/T"
             print("---- script (%s):" % which)
             if mode == "plain":
                 print(e2e_script("$T", case["ctx"], muts))
+            elif mode == "raw":
+                print(muts[0].replace("@T@", "$T").replace(E2E_SETUP, "<setup>\n"))
             elif mode == "lp":
                 print("<setup>; shopt -s lastpipe\nA: %s\nB: %s\n(dump after A must equal dump after B)"
                       % (" | ".join(muts[:-1] + ["{ %s; }" % muts[-1]]), "{ %s; }" % muts[-1]))
